@@ -35,7 +35,7 @@ ASSUMPTIONS = [
     'the CSV files under $VERIF_REPO/src/scippneutron/atoms are the tables meant by the property (read with the csv module)',
     'scipp scalar construction, units and unit conversion are the trusted base',
     '"rejected" = any exception',
-    'attenuation tolerance 1e-14 relative (DESIGN C20), evaluated in exact rationals on the float inputs; only the value, not the propagated variance, is judged',
+    'attenuation tolerance 1e-14 relative (DESIGN C20), evaluated in exact rationals on the float inputs; scalar calls with variance-carrying density / wavelength are also judged for their variance: first-order propagation of the law with n, sigma_s, sigma_a, lambda independent (1e-9 relative)',
 ]
 BOUND = {
     'quick': 'all 4046 rows x 2 lookups x cold/warm; near-miss menu on 489 small-table names and every 10th mass row; 405 + 135 attenuation calls',
@@ -44,7 +44,7 @@ BOUND = {
 REQUIRED_CLASSES = [
     'sp_found', 'sp_rejected', 'sp_field_none', 'sp_field_value_only', 'sp_field_with_variance',
     'atom_element', 'atom_isotope', 'atom_rejected', 'weight_blank_raises', 'weight_present', 'mass_absent_raises', 'mass_present',
-    'cold', 'warm', 'nearmiss_hits_other_row', 'nearmiss_rejected', 'attenuation_ok', 'attenuation_array', 'attenuation_same_number_other_unit', 'attenuation_int64', 'attenuation_float32',
+    'cold', 'warm', 'nearmiss_hits_other_row', 'nearmiss_rejected', 'attenuation_ok', 'attenuation_uncertainty_ok', 'attenuation_array', 'attenuation_same_number_other_unit', 'attenuation_int64', 'attenuation_float32',
 ]
 
 DIR = os.path.dirname(os.path.abspath(atoms_mod.__file__))
@@ -402,6 +402,36 @@ def run_attenuation(case, rec):
                 rec.viol('Material.attenuation_coefficient', 'shape', f'scalar wavelength gave dims {mu.dims}')
                 continue
             judge(mu, [lv], n_value, 'scalar')
+        # uncertainties: the law is a product / sum of independent quantities (n, sigma_s, sigma_a, lambda), so the first-order
+        # propagated variance of the result is defined by the law itself:
+        #   var(mu) = (mu/n)^2 var(n) + n^2 var(sigma_s) + (n lambda/lambda0)^2 var(sigma_a) + (n sigma_a/lambda0)^2 var(lambda)
+        for rel_n, rel_l in ((0.01, 0.0), (0.0, 0.02), (0.005, 0.01)):
+            for lv in lam_values:
+                rec.transitions += 1
+                rec.states += 1
+                nvar = sc.scalar(n_value, variance=(rel_n * n_value) ** 2, unit=du) if rel_n else sc.scalar(n_value, unit=du)
+                wl = sc.scalar(lv, variance=(rel_l * lv) ** 2, unit=lu) if rel_l else sc.scalar(lv, unit=lu)
+                matv = Material(scattering_params=params, effective_sample_number_density=nvar)
+                try:
+                    mu = matv.attenuation_coefficient(wl).to(unit='1/m')
+                except sc.VariancesError:
+                    rec.cls('attenuation_variances_refused')
+                    continue
+                lam = Fraction(lv) * LENGTH[lu]
+                n = Fraction(n_value) / dunit_len**3
+                ss, sa = Fraction(sig_s[0]) * BARN, Fraction(sig_a[0]) * BARN
+                vs = Fraction(sig_s[1]) * BARN**2 if sig_s[1] else Fraction(0)  # tabulated entries are (value, variance, unit)
+                va = Fraction(sig_a[1]) * BARN**2 if sig_a[1] else Fraction(0)
+                m = n * (ss + sa * lam / REF_LAMBDA)
+                want_var = (m / n) ** 2 * (Fraction(rel_n) * n) ** 2 + n**2 * vs + (n * lam / REF_LAMBDA) ** 2 * va + (n * sa / REF_LAMBDA) ** 2 * (Fraction(rel_l) * lam) ** 2
+                got_var = Fraction(float(mu.variance)) if mu.variance is not None else Fraction(0)
+                rec.validated += 1
+                if want_var == 0:
+                    continue
+                if abs(got_var - want_var) > want_var * Fraction(1, 10**9):
+                    rec.viol('Material.attenuation_coefficient', 'uncertainty', f'{name} lambda={lv!r}({rel_l:g}) {lu} n={n_value!r}({rel_n:g}) {du}: sigma(mu)={float(got_var) ** 0.5!r} 1/m, first-order propagation of the law gives {float(want_var) ** 0.5!r}', rel_n=rel_n, rel_lambda=rel_l, wavelength=lv)
+                else:
+                    rec.cls('attenuation_uncertainty_ok')
         # the same Material object asked for the same *number* in another unit (and again in the first unit): the answer
         # depends on the physical wavelength only, not on what this object was asked before
         other = {'angstrom': 'nm', 'nm': 'angstrom', 'm': 'angstrom'}[lu]
